@@ -1,9 +1,13 @@
 #!/bin/bash
-# run the checks of each property family against a behaviour-preserving refactoring (false-alarm probe)
-run() { wt=$1; shift; for c in "$@"; do echo "== $wt $c"; VERIF_REPO=$wt VERIF_OUT=/tmp/rf_out_$(basename $wt) VERIF_EVIDENCE_DIR=/tmp/rf_ev ./check $c --tier quick 2>&1 | grep -E "^(PASS|FAIL|VIOLATION|MACHINERY|DRIFT|KNOWN)" | cut -c1-260 | head -6; done; }
+# false-alarm probe: run each family's checks against the behaviour-preserving refactorings kept in seeded/refactors/
+# (diffs apply to /repo at f9d933b; later fix commits touching the same lines may need `git apply -3`)
 cd /verif
-run /tmp/wt/R2 C01 C02 C03 C17
-run /tmp/wt/R3 C08 C09 C10 C11 C12 C18
-run /tmp/wt/R4 C07 C13 C14 C19 C20
-run /tmp/wt/R1 C04 C05 C06 C15 C16 C19
-echo DONE
+run() { r=$1; shift; wt=/tmp/rf_$r; git -C /repo worktree remove --force $wt 2>/dev/null; git -C /repo worktree add --detach $wt f9d933b -q || return
+  (cd $wt && git apply /verif/seeded/refactors/$r.diff) || { echo "$r: diff does not apply"; git -C /repo worktree remove --force $wt; return; }
+  for c in "$@"; do echo "== $r $c"; VERIF_REPO=$wt VERIF_OUT=/tmp/rf_out_$r VERIF_EVIDENCE_DIR=/tmp/rf_ev ./check $c --tier quick 2>&1 | grep -E "^(PASS|FAIL|VIOLATION|MACHINERY|DRIFT|KNOWN)" | cut -c1-200 | head -4; done
+  git -C /repo worktree remove --force $wt; rm -rf /tmp/rf_out_$r; }
+run R2 C01 C02 C03 C17
+run R3 C08 C09 C10 C11 C12 C18
+run R4 C07 C13 C14 C19 C20
+run R1 C04 C05 C06 C15 C16 C19
+rm -rf /tmp/rf_ev; echo DONE
